@@ -42,12 +42,8 @@ import (
 	"time"
 
 	"github.com/btcsuite/btcd/chainhash/v2"
-	"github.com/lightningnetwork/lnd/chainntnfs"
 	"github.com/lightningnetwork/lnd/channeldb"
-	"github.com/lightningnetwork/lnd/fn/v2"
-	"github.com/lightningnetwork/lnd/lntest/mock"
 	"github.com/lightningnetwork/lnd/lntypes"
-	"github.com/lightningnetwork/lnd/lnwallet"
 	"github.com/lightningnetwork/lnd/verifmc/chanmc"
 	"github.com/lightningnetwork/lnd/verifmc/evid"
 )
@@ -61,6 +57,21 @@ type c12PipeCase struct {
 	// Known: bit k set = the node knows the preimage of HTLC k of the table
 	// (offered first, ascending ids).
 	Known uint32 `json:"known"`
+	// Families pipe/observer and pipe/coop (pipeobs_test.go); zero values = the direct
+	// handleCommitSpend call with one of the three commitments.
+	//   Conf may also be "coop-final" / "coop-rbf": a cooperative close with input
+	//   sequence wire.MaxTxInSequenceNum / mempool.MaxRBFSequence.
+	//   Confs > 0: the started watcher (closeObserver) with chanCloseConfs = Confs.
+	//   Rival: a spend detected BEFORE the one that confirms: local | remote | pending |
+	//   coop-rbf | same (the confirming transaction itself, reported twice).
+	//   Reorg: the rival is re-orged out (negative confirmation) before the confirming
+	//   spend is detected; false: the later spend replaces it directly.
+	//   ViaBeat: the spend that confirms is found by a block beat (handleBlockbeat ->
+	//   checkFundingSpend) instead of the spend case of the observer's select.
+	Confs   uint32 `json:"confs,omitempty"`
+	Rival   string `json:"rival,omitempty"`
+	Reorg   bool   `json:"reorg,omitempty"`
+	ViaBeat bool   `json:"via_beat,omitempty"`
 }
 
 type c12PipeReplay struct {
@@ -164,12 +175,13 @@ func pipeCell(w *chanmc.World, pc c12PipeCase) (c12Cell, error) {
 
 // runPipe executes one case on the live channel world w (read-only for the world).
 func runPipe(w *chanmc.World, typ string, pc c12PipeCase, info func(string, ...any)) (res c12DispResult, obs c12Obs, viols []c12Viol, cell c12Cell) {
+	replaying := info != nil
 	if info == nil {
 		info = func(string, ...any) {}
 	}
 	bad := func(clause, format string, a ...any) {
 		viols = append(viols, c12Viol{
-			Sig:  fmt.Sprintf("pipe/%s/conf=%s/type=%s", clause, pc.Conf, typ),
+			Sig:  fmt.Sprintf("pipe/%s/conf=%s/type=%s%s", clause, pc.Conf, typ, pc.tag()),
 			What: fmt.Sprintf(format, a...),
 		})
 	}
@@ -182,7 +194,10 @@ func runPipe(w *chanmc.World, typ string, pc c12PipeCase, info func(string, ...a
 	for k, h := range cell.HTLCs {
 		info("HTLC #%d: %s idx=%d expiry=%d outputs(local,remote,pending)=%v", k, h.desc(cell.HasPending), h.Idx, h.Exp, cell.real.out[k])
 	}
-	key, _ := confKey(pc.Conf)
+	var key HtlcSetKey
+	if !pc.coop() {
+		key, _ = confKey(pc.Conf)
+	}
 	if pc.Conf == "pending" && !cell.HasPending {
 		res.Skipped = "no-pending-commitment"
 		return
@@ -224,69 +239,74 @@ func runPipe(w *chanmc.World, typ string, pc c12PipeCase, info func(string, ...a
 
 	// --- the chain watcher ---
 	st := cell.real.chanState
-	var (
-		tx        = st.LocalCommitment.CommitTx
-		confirmed = &st.LocalCommitment
-		ownerDust = st.LocalChanCfg.DustLimit
-	)
-	switch pc.Conf {
-	case "remote":
-		tx, confirmed, ownerDust = st.RemoteCommitment.CommitTx, &st.RemoteCommitment, st.RemoteChanCfg.DustLimit
-	case "pending":
-		tip, _ := st.RemoteCommitChainTip()
-		tx, confirmed, ownerDust = tip.Commitment.CommitTx, &tip.Commitment, st.RemoteChanCfg.DustLimit
-	}
-	watcher, err := newChainWatcher(chainWatcherConfig{
-		chanState: st,
-		notifier: &mock.ChainNotifier{
-			SpendChan: make(chan *chainntnfs.SpendDetail),
-			EpochChan: make(chan *chainntnfs.BlockEpoch),
-			ConfChan:  make(chan *chainntnfs.TxConfirmation),
-		},
-		signer:              w.Signer(pc.Party),
-		extractStateNumHint: lnwallet.GetStateNumHint,
-		chanCloseConfs:      fn.Some(uint32(1)),
-		auxLeafStore:        fn.Some[lnwallet.AuxLeafStore](&lnwallet.MockAuxLeafStore{}),
-	})
-	if err != nil {
-		bad("harness", "newChainWatcher: %v", err)
+	tx, confirmed, ownerDust, have := pipeTx(st, pc.Conf)
+	if !have {
+		res.Skipped = "no-such-transaction"
 		return
 	}
-	sub := watcher.SubscribeChannelEvents()
 	txid := tx.TxHash()
-	info("chain watcher: funding output spent by the %s commitment %v at height %d", pc.Conf, txid, hc)
-	err = watcher.handleCommitSpend(&chainntnfs.SpendDetail{
-		SpentOutPoint: &st.FundingOutpoint, SpenderTxHash: &txid, SpendingTx: tx,
-		SpenderInputIndex: 0, SpendingHeight: int32(hc),
-	})
-	if err != nil {
-		bad("watcher-error", "handleCommitSpend failed for our party's %s commitment: %v", pc.Conf, err)
+	evs, ok := pipeDeliver(w, st, pc, tx, hc, replaying, info, bad)
+	if !ok {
+		if len(viols) == 0 {
+			res.Skipped = "variant-not-applicable"
+		}
 		return
 	}
 	var (
 		local  *LocalUnilateralCloseInfo
 		remote *RemoteUnilateralCloseInfo
 		cs     *CommitSet
-		kind   string
+		kind   = "none"
 	)
-	select {
-	case local = <-sub.LocalUnilateralClosure:
-		kind, cs = "local", &local.CommitSet
-	case remote = <-sub.RemoteUnilateralClosure:
-		kind, cs = "remote", &remote.CommitSet
-	case <-sub.ContractBreach:
-		kind = "breach"
-	case <-sub.CooperativeClosure:
-		kind = "coop"
-	default:
-		kind = "none"
+	if len(evs) > 1 {
+		bad("duplicate-event", "the %s transaction confirmed once but the chain watcher dispatched %d close events (%q, %q, ...)", pc.Conf, len(evs), evs[0].kind, evs[1].kind)
+		return
+	}
+	if len(evs) == 1 {
+		kind, local, remote = evs[0].kind, evs[0].local, evs[0].remote
+		switch {
+		case local != nil:
+			cs = &local.CommitSet
+		case remote != nil:
+			cs = &remote.CommitSet
+		}
 	}
 	want := "remote"
-	if pc.Conf == "local" {
+	switch {
+	case pc.Conf == "local":
 		want = "local"
+	case pc.coop():
+		want = "coop"
 	}
 	if kind != want {
-		bad("wrong-event", "the %s commitment confirmed but the chain watcher dispatched a %q close event", pc.Conf, kind)
+		bad("wrong-event", "the %s transaction confirmed but the chain watcher dispatched a %q close event", pc.Conf, kind)
+		return
+	}
+	if pc.coop() {
+		// pipe/coop: the event names the transaction; the arbitrator has nothing to
+		// resolve (a cooperative close is none of the three commitments).
+		ci := evs[0].coop
+		if ci == nil || ci.ChannelCloseSummary == nil || ci.ClosingTXID != txid || ci.ChanPoint != st.FundingOutpoint ||
+			ci.CloseType != channeldb.CooperativeClose {
+
+			bad("event-for-other-commitment", "the cooperative close %v confirmed but the event's summary names another transaction / channel / close type", txid)
+			return
+		}
+		cw.setPhase(1)
+		err := cw.arb.handleCoopCloseEvent(ci)
+		info("cooperative close event handled -> %v err=%v", cw.arb.state, err)
+		obs = cw.snapshot()
+		obs.States = append(obs.States, cw.arb.state.String())
+		if err != nil || len(obs.Errors) > 0 {
+			bad("coop-error", "handling the cooperative close event failed: %v %v", err, obs.Errors)
+		}
+		if st := cw.arb.state; st != StateFullyResolved {
+			bad("arbitrator-stuck", "after the cooperative close event the arbitrator is in %v", st)
+		}
+		if len(obs.Resolvers) > 0 {
+			bad("coop-resolver", "a cooperative close has no commitment outputs, but %d resolver(s) were created", len(obs.Resolvers))
+		}
+		res.Classes = []string{fmt.Sprintf("coop|%s|htlcs=%d|state=%v", pc.Conf, len(cell.HTLCs), cw.arb.state)}
 		return
 	}
 	if got := cs.ConfCommitKey.UnwrapOr(HtlcSetKey{IsPending: true}); cs.ConfCommitKey.IsNone() || got != key {
@@ -371,6 +391,7 @@ func sameHtlcs(a, b []channeldb.HTLC) bool {
 
 type c12PipeStats struct {
 	states, execs, nontrivial, skipped, viol atomic.Int64
+	obsExecs, coopExecs                      atomic.Int64
 }
 
 // c12PipeSpaces explores the channel worlds and runs every pipe case on every
@@ -404,7 +425,7 @@ func c12PipeSpaces(run *evid.Run, thorough bool, deadline time.Time, spaceInfo *
 	// before the confirmation; thorough: {none, user} and preimage knowledge {none,
 	// all} (the product with block-triggered closes and every knowledge assignment is
 	// the lattice spaces' and the first worlds' business).
-	onStateFor := func(params chanmc.Params, reduced bool) func(w *chanmc.World) {
+	onStateFor := func(params chanmc.Params, reduced, obsFull bool) func(w *chanmc.World) {
 		pres, knowns := pres, knowns
 		if reduced {
 			pres = []string{"none"}
@@ -441,79 +462,90 @@ func c12PipeSpaces(run *evid.Run, thorough bool, deadline time.Time, spaceInfo *
 						n[fmt.Sprintf("%v/%d", h.Incoming, h.HtlcIndex)] = true
 					}
 				}
+				runCase := func(pc c12PipeCase) {
+					res, obs, viols, cell := runPipe(w, params.Type, pc, nil)
+					if res.Skipped != "" {
+						ps.skipped.Add(1)
+						return
+					}
+					ps.execs.Add(1)
+					if len(obs.Msgs)+len(obs.Finals)+len(obs.Resolvers) > 0 {
+						ps.nontrivial.Add(1)
+					}
+					mu.Lock()
+					for _, c := range res.Classes {
+						fine["pipe|"+c]++
+					}
+					coarse[fmt.Sprintf("pipe|%s|conf=%s|htlcs=%d|resolvers=%d|fails=%d|finals=%d", params.Type, pc.Conf+pc.tag(),
+						len(cell.HTLCs), len(obs.Resolvers), len(obs.Msgs), len(obs.Finals))]++
+					for _, d := range diff {
+						coarse[fmt.Sprintf("pipe-pending-diff|%s|conf=%s", d, pc.Conf)]++
+					}
+					if nSamp < 2 && len(obs.Resolvers) > 0 && len(obs.Msgs) > 0 {
+						nSamp++
+						samples.Add(map[string]any{"pipe": pc, "params": params, "history": w.Hist(), "observations": obs, "classes": res.Classes})
+					}
+					mu.Unlock()
+					if len(viols) == 0 {
+						return
+					}
+					ps.viol.Add(1)
+					for _, v := range viols {
+						count(v.Sig)
+						mu.Lock()
+						dup := gated[v.Sig]
+						gated[v.Sig] = true
+						mu.Unlock()
+						if dup {
+							continue
+						}
+						rp := c12PipeReplay{Params: params, History: w.Hist(), Pipe: pc}
+						if v.MapOrder {
+							run.Violation(v.Sig, v.What+" [outcome depends on Go map iteration order inside lnd; may not reproduce on every replay]", rp)
+							continue
+						}
+						// determinism gate on the same live world
+						same := true
+						for i := 0; i < 2 && same; i++ {
+							_, o2, v2, _ := runPipe(w, params.Type, pc, nil)
+							found := false
+							for _, x := range v2 {
+								if x.Sig == v.Sig {
+									found = true
+								}
+							}
+							if !found || (o2.canon() != obs.canon() && !cell.mapOrderSensitive()) {
+								same = false
+							}
+						}
+						if !same {
+							fmt.Printf("INFO nondeterministic pipe observation (not reported): %s\n", v.Sig)
+							mu.Lock()
+							delete(gated, v.Sig)
+							mu.Unlock()
+							continue
+						}
+						run.Violation(v.Sig, v.What, rp)
+					}
+				}
 				for _, pre := range pres {
 					for _, conf := range []string{"local", "remote", "pending"} {
 						for _, kn := range knowns(len(n)) {
 							if len(n) == 0 && kn != 0 {
 								continue
 							}
-							pc := c12PipeCase{Party: party, Pre: pre, Conf: conf, Known: kn}
-							res, obs, viols, cell := runPipe(w, params.Type, pc, nil)
-							if res.Skipped != "" {
-								ps.skipped.Add(1)
-								continue
-							}
-							ps.execs.Add(1)
-							if len(obs.Msgs)+len(obs.Finals)+len(obs.Resolvers) > 0 {
-								ps.nontrivial.Add(1)
-							}
-							mu.Lock()
-							for _, c := range res.Classes {
-								fine["pipe|"+c]++
-							}
-							coarse[fmt.Sprintf("pipe|%s|conf=%s|htlcs=%d|resolvers=%d|fails=%d|finals=%d", params.Type, conf,
-								len(cell.HTLCs), len(obs.Resolvers), len(obs.Msgs), len(obs.Finals))]++
-							for _, d := range diff {
-								coarse[fmt.Sprintf("pipe-pending-diff|%s|conf=%s", d, conf)]++
-							}
-							if nSamp < 2 && len(obs.Resolvers) > 0 && len(obs.Msgs) > 0 {
-								nSamp++
-								samples.Add(map[string]any{"pipe": pc, "params": params, "history": w.Hist(), "observations": obs, "classes": res.Classes})
-							}
-							mu.Unlock()
-							if len(viols) == 0 {
-								continue
-							}
-							ps.viol.Add(1)
-							for _, v := range viols {
-								count(v.Sig)
-								mu.Lock()
-								dup := gated[v.Sig]
-								gated[v.Sig] = true
-								mu.Unlock()
-								if dup {
-									continue
-								}
-								rp := c12PipeReplay{Params: params, History: w.Hist(), Pipe: pc}
-								if v.MapOrder {
-									run.Violation(v.Sig, v.What+" [outcome depends on Go map iteration order inside lnd; may not reproduce on every replay]", rp)
-									continue
-								}
-								// determinism gate on the same live world
-								same := true
-								for i := 0; i < 2 && same; i++ {
-									_, o2, v2, _ := runPipe(w, params.Type, pc, nil)
-									found := false
-									for _, x := range v2 {
-										if x.Sig == v.Sig {
-											found = true
-										}
-									}
-									if !found || (o2.canon() != obs.canon() && !cell.mapOrderSensitive()) {
-										same = false
-									}
-								}
-								if !same {
-									fmt.Printf("INFO nondeterministic pipe observation (not reported): %s\n", v.Sig)
-									mu.Lock()
-									delete(gated, v.Sig)
-									mu.Unlock()
-									continue
-								}
-								run.Violation(v.Sig, v.What, rp)
-							}
+							runCase(c12PipeCase{Party: party, Pre: pre, Conf: conf, Known: kn})
 						}
 					}
+				}
+				// families pipe/coop and pipe/observer (pipeobs_test.go)
+				for _, pc := range c12ObserverCases(party, pend != nil, obsFull) {
+					if pc.Confs > 0 {
+						ps.obsExecs.Add(1)
+					} else {
+						ps.coopExecs.Add(1)
+					}
+					runCase(pc)
 				}
 			}
 		}
@@ -521,7 +553,11 @@ func c12PipeSpaces(run *evid.Run, thorough bool, deadline time.Time, spaceInfo *
 
 	spaces, fullCases := c12PipeWorlds(thorough)
 	for i := range spaces {
-		spaces[i].OnState = onStateFor(spaces[i].P, !fullCases[spaces[i].P.Name()])
+		// The whole observer product runs on the first world of the tier (quick: tweakless,
+		// one HTLC per direction; thorough: one all-types world per channel type, opener A); the other
+		// worlds get the reduced set (see c12ObserverCases).
+		obsFull := i == 0 || (thorough && !fullCases[spaces[i].P.Name()] && len(spaces[i].P.Fees) == 0 && len(spaces[i].P.Script) == 2 && !spaces[i].P.OpenerB)
+		spaces[i].OnState = onStateFor(spaces[i].P, !fullCases[spaces[i].P.Name()], obsFull)
 	}
 	t0 := time.Now()
 	sub := evid.Start("C12x", "exploration") // violations of the channel world itself are C01's business
@@ -549,7 +585,10 @@ func c12PipeSpaces(run *evid.Run, thorough bool, deadline time.Time, spaceInfo *
 		"complete": len(agg.Caps) == 0, "wall_s": time.Since(t0).Seconds(),
 		"pending_diff_views": views, "pending_diff_views_by_type": viewsBy,
 		"determinism_recheck": agg.Recheck, "per_world": agg.PerSpace,
+		"observer_cases": ps.obsExecs.Load(), "coop_direct_cases": ps.coopExecs.Load(),
 	}
+	fmt.Printf("INFO pipe/observer: %d cases through the started watcher (closeObserver: confs x rival x replaced/re-orged), pipe/coop: %d direct cooperative-close cases\n",
+		ps.obsExecs.Load(), ps.coopExecs.Load())
 	var vl []string
 	for _, d := range append([]string{"none"}, c12PendingDiffAll...) {
 		vl = append(vl, fmt.Sprintf("%s=%d(A:%d,B:%d)", d, views[d], views[d+"@A"], views[d+"@B"]))
